@@ -14,6 +14,7 @@ def _nontrivial(t):
 
 
 def run(tier):
+    from harness import gen, engrun
     rnd = random.Random(common.seed() + 7)
     n = 140 if tier == 'quick' else 3000
     jobs = ec.random_jobs(rnd, n, label='items', gen_kw=dict(partial_joins=False, p_items=0.45, p_sub=0.1, p_cmd=0.03, p_guard=0.15))
@@ -22,18 +23,77 @@ def run(tier):
             j['ops'] = [dict(at=80, op='rerun', reset=bool(k % 2))]
     # with-items over sub-workflows whose task fails for every item; the failed tasks inside ALL item sub-workflows are rerun
     # back to back: the parent task has to wait for every re-running item
-    from harness import gen, engrun
     for n_items in (2, 3):
         for k, pol in enumerate(engrun.POLICIES[1:]):
             P = gen.items_over_subworkflows(n_items, conc=(None if k % 2 else n_items))
             ops = [dict(at=300, op='rerun', reset=True, target='r/t0#0@0.0/sub1x0#0')]
             ops += [dict(rel=0, op='rerun', reset=True, target='r/t0#0@%d.0/sub1x0#0' % i) for i in range(1, n_items)]
             jobs.append(dict(prog=P, scheduler=('default', 'legacy')[k % 2], policy=pol, seed=k + 1, label='itemsub%d' % n_items, ops=ops, max_steps=900))
+    # the fixed with-items shapes (gen.items_catalogue: 0 / 2 / 3 items, concurrency absent / 1 / 2 / 3, a failing item, a with-items
+    # join, two with-items tasks feeding a join) under every schedule policy and both schedulers, alone and paused / resumed early
+    shapes = gen.items_catalogue()
+    for nm, P in shapes:
+        for k, pol in enumerate(engrun.POLICIES[1:]):
+            sch = ('default', 'legacy')[(k + len(nm)) % 2]
+            jobs.append(dict(prog=P, scheduler=sch, policy=pol, seed=k + 1, label=nm))
+            if k % 2 == 0 or tier == 'thorough':
+                at = 1 + (k // 2) % 4
+                jobs.append(dict(prog=P, scheduler=sch, policy=pol, seed=k + 1, label=nm + '_pr', ops=[dict(at=at, op='pause'), dict(at=at + 1 + k % 3, op='resume')]))
+    # action-only with-items programs with pause / resume / redelivery / stop histories (the part of with-items MistralEngine.tla covers)
+    acts = ec.random_jobs(rnd, n // 2, schedulers=('default', 'legacy'), label='itemsact',
+                          gen_kw=dict(partial_joins=True, p_join=0.7, p_items=0.45, p_cmd=0.1, p_err=0.3, cmds=['fail', 'succeed', 'noop', 'pause']))
+    for k, j in enumerate(acts):
+        at = rnd.randint(1, 25)
+        if k % 4 == 1:
+            j['ops'] = [dict(at=at, op='pause'), dict(at=at + rnd.randint(1, 12), op='resume')]
+        elif k % 4 == 2:
+            j['dups'] = 2
+        elif k % 8 == 3:
+            j['ops'] = [dict(at=at, op='stop', state=rnd.choice(['ERROR', 'CANCELLED', 'SUCCESS']))]
+    jobs += acts
+    # with-items x retry: every attempt executes every index again; failing items succeed the second time; concurrency absent / below /
+    # equal to the item count
+    for n_it, conc, bad in ((3, 1, (1, 2)), (3, 2, (0,)), (3, None, (1,)), (4, 2, (0, 3)), (3, 1, (2,)), (2, 2, (0, 1)), (3, 3, (1,))):
+        Pr = gen.Program()
+        Pr.order = ['a', 'z']
+        Pr.tasks = {'a': {'kind': 'action', 'with_items': n_it, 'retry': {'count': 1 + (n_it % 2), 'delay': n_it % 2}, 'succ': [{'to': 'z'}], 'err': [], 'comp': []},
+                    'z': {'kind': 'action', 'succ': [], 'err': [], 'comp': []}}
+        if conc:
+            Pr.tasks['a']['concurrency'] = conc
+        Pr.oracle = {'a': {i: (['err', 'ok'] if i in bad else ['ok']) for i in range(n_it)}}
+        Pr.flags = {'items': True, 'retry': True}
+        for k, pol in enumerate(engrun.POLICIES[1:]):
+            jobs.append(dict(prog=Pr, scheduler=('default', 'legacy')[k % 2], policy=pol, seed=k + 1, label='items_retry_%d_c%s' % (n_it, conc or 0)))
+    small = ('items2_c0_ok', 'items2_c1_ok', 'items2_c1_err1', 'items0_c1_ok')
+    mid = small + ('items3_c1_ok', 'items3_c1_err1', 'items3_c2_err1', 'items2_c3_ok')
+    quick_shapes = [x for x in shapes if x[0] != 'items_pair_join']
+
+    def model_runs(d):
+        out = ec.catalogue_model_runs(d, tier, shapes=(shapes if tier == 'thorough' else quick_shapes), liveness_for=('items3_c1_err1', 'items2_c3_ok', 'items_join_c1'))
+        out += ec.catalogue_model_runs(d, tier, shapes=shapes, ops=2, kinds=('pause', 'resume', 'stop'), tag='_o2', only=(mid if tier == 'thorough' else small),
+                                       schedulers=('default', 'legacy'))
+        out += ec.catalogue_model_runs(d, tier, shapes=shapes, ops=0, dups=1, tag='_d1', only=(mid if tier == 'thorough' else small[1:]), schedulers=('default', 'legacy'))
+        if tier == 'thorough':
+            out += ec.catalogue_model_runs(d, tier, shapes=shapes, ops=3, kinds=('pause', 'resume'), tag='_o3', only=small)
+            out += ec.catalogue_model_runs(d, tier, shapes=shapes, ops=2, kinds=('pause', 'resume'), tag='_o2b', only=('items3_c0_ok', 'items3_c0_err1', 'items3_c2_ok'))
+        return out
+
     return ec.run_property(PID, tier, jobs,
                            'generated programs whose tasks iterate over 0..4 items (actions and sub-workflows, concurrency absent / 1..n+1, '
                            'per-item outcomes from the oracle) under 8 schedule policies that interleave item completions with the keyed '
-                           'accounting jobs, some followed by a rerun with reset on/off; non-trivial = distinct runs in which a with-items task with >= 1 item ran',
-                           _nontrivial)
+                           'accounting jobs, some followed by a rerun with reset on/off; fixed with-items shapes under every policy and both schedulers, '
+                           'alone and paused / resumed early; with-items x retry (every index executed again by the next attempt, concurrency absent / below / equal to the item count); action-only with-items programs with pause / resume / redelivery / stop histories; '
+                           'non-trivial = distinct runs in which a with-items task with >= 1 item ran',
+                           _nontrivial, strict=True, model_runs=model_runs,
+                           model_behaviours=lambda d: ec.model_jobs(
+                               d, tier, shapes=shapes,
+                               sims=[(None, 2 if tier == 'quick' else 8, 0, 0, ()), (mid, 2 if tier == 'quick' else 8, 2, 0, ('pause', 'resume'))],
+                               probes=[('items_task_restarted_by_resume_hangs', 'items2_c0_ok',
+                                        'Quiet /\\ wf = "RUNNING" /\\ KF_ItemsRestart /\\ Len(ax["a"]) > 2', 2, 0, ('pause', 'resume')),
+                                       ('items_task_restarted_by_resume_completes_early', 'items2_c1_ok',
+                                        'tk["a"].state = "SUCCESS" /\\ \\E k \\in 1..Len(ax["a"]) : ax["a"][k].s = "RUNNING"', 2, 0, ('pause', 'resume')),
+                                       ('concurrency_limit_reached', 'items3_c2_ok',
+                                        'Cardinality({k \\in 1..Len(ax["a"]) : ax["a"][k].s = "RUNNING"}) = 2 /\\ Len(ax["a"]) = 3', 0, 0, ())]))
 
 
 def replay(path):
